@@ -60,7 +60,7 @@ DESTS = {
     "rot-coarse": (Affine.translation(0.309375, 0.1) * Affine(15 / 17, -8 / 17, 0, 8 / 17, 15 / 17, 0) * Affine.scale(1.7), (6, 6)),
 }
 
-NODATA = ("none", "src", "dst", "both")
+NODATA = ("none", "src", "dst", "both", "dst0", "src+dst0", "src0")  # incl. the falsy value 0 on either side
 
 
 def nodata_vals(dtype, setting):
@@ -69,11 +69,15 @@ def nodata_vals(dtype, setting):
     a, b = (250, 251) if dt.kind == "u" else (-9999, -7777) if dt.itemsize > 1 else (-128, -127)
     if dt.kind == "f":
         a, b = -9999.0, -7777.0
+    zero = 0.0 if dt.kind == "f" else 0
     return {
         "none": (None, None),
         "src": (a, None),
         "dst": (None, b),
         "both": (a, b),
+        "dst0": (None, zero),
+        "src+dst0": (a, zero),
+        "src0": (zero, None),
     }[setting]
 
 
@@ -174,7 +178,8 @@ def gen_main(tier):
             for dest in DESTS:
                 for sc in CHUNKS:
                     for dc in CHUNKS:
-                        for dtype, nds in (("int16", "both"), ("float32", "none"), ("uint8", "none"), ("float64", "src")):
+                        for dtype, nds in (("int16", "both"), ("float32", "none"), ("uint8", "none"), ("float64", "src"),
+                                           ("int16", "src+dst0"), ("float32", "dst0")):
                             yield (shape, dtype, nds, sc, dc, dest, 0)
         # slice B: all dtypes x all nodata settings x time axis (three chunkings)
         for shape in SRC_SHAPES:
